@@ -346,3 +346,15 @@ func Main(m *testing.M, id string) {
 
 // Errf is a shorthand for building violation errors.
 func Errf(format string, a ...interface{}) error { return fmt.Errorf(format, a...) }
+
+// Known reports whether key is listed as a known (not yet repaired) finding in
+// /verif/known_findings.json; generators exclude exactly that trigger class and
+// count it with Info.Exclude. A finding marked fixed is not Known.
+func Known(key string) bool {
+	for _, k := range strings.Split(os.Getenv("VERIF_KNOWN"), ",") {
+		if k == key {
+			return true
+		}
+	}
+	return false
+}
